@@ -85,6 +85,19 @@ fn export_const<'tcx>(tcx: TyCtxt<'tcx>, did: DefId) -> Option<J> {
         return None;
     }
     let ty = tcx.type_of(did).instantiate_identity().skip_norm_wip();
+    if let ty::Ref(_, inner, _) = ty.kind() {
+        if inner.is_str() {
+            // `const TAG: &str = "..."`
+            let val = tcx.const_eval_poly(did).ok()?;
+            let bytes = val.try_get_slice_bytes_for_diagnostics(tcx)?;
+            let sv = std::str::from_utf8(bytes).ok()?;
+            return Some(J::obj(vec![
+                ("def", J::Str(def_key(tcx, did))),
+                ("ty", ty_s(ty)),
+                ("str", J::Str(sv.to_string())),
+            ]));
+        }
+    }
     if !(ty.is_integral() || ty.is_bool()) {
         return None;
     }
@@ -351,7 +364,12 @@ impl<'a, 'tcx> Cx<'a, 'tcx> {
                             for bbd in pb.basic_blocks.iter() {
                                 for st in &bbd.statements {
                                     if let StatementKind::Assign(box (_, Rvalue::Use(Operand::Constant(pc), _))) = &st.kind {
-                                        if let Const::Val(v, _) = pc.const_ {
+                                        let pv: Option<ConstValue> = match pc.const_ {
+                                            Const::Val(v, _) => Some(v),
+                                            // `&NAMED_CONST` where `const NAMED_CONST: &str = "..."`
+                                            _ => pc.const_.eval(tcx, self.env, pc.span).ok(),
+                                        };
+                                        if let Some(v) = pv {
                                             if let ConstValue::Slice { .. } = v {
                                                 if let Some(bytes) = v.try_get_slice_bytes_for_diagnostics(tcx) {
                                                     if let Ok(sv) = std::str::from_utf8(bytes) {
